@@ -448,6 +448,13 @@ def POWMOD(x, e, m):
     x = IV(x) if isinstance(x, int) else simp(x)
     e = IV(e) if isinstance(e, int) else simp(e)
     m = IV(m) if isinstance(m, int) else simp(m)
+    if ec is not None and 2 <= ec <= 4:
+        # pow(x, 2, m) is x*x % m: small literal exponents are unfolded (audited: "powmod-small")
+        r = x
+        for _ in range(ec - 1):
+            r = r * x
+        if mc is not None and mc > 0:
+            return simp(r % m)
     t = powmod(x, e, m)
     if FACTS.reg("powmod", x, e, m):
         FACTS.add(z3.Implies(z3.And(m > 0, e >= 0), z3.And(t >= 0, t < m)), "powmod-range")
